@@ -97,6 +97,18 @@ func globalWrites(w *core.World, fn *ssa.Function) []globalWrite {
 						out = append(out, globalWrite{fn, in, g, "copy into"})
 					}
 				}
+				// process-wide containers and counters: sync.Pool / sync.Map / atomics on a global
+				n := core.CallName(t)
+				if strings.HasPrefix(n, "sync.(*Pool).") || (strings.HasPrefix(n, "sync.(*Map).") && !strings.HasSuffix(n, ".Load") && !strings.HasSuffix(n, ".Range")) ||
+					strings.HasPrefix(n, "sync/atomic.Add") || strings.HasPrefix(n, "sync/atomic.Store") || strings.HasPrefix(n, "sync/atomic.Swap") || strings.HasPrefix(n, "sync/atomic.CompareAndSwap") ||
+					(strings.HasPrefix(n, "sync/atomic.(*") && !strings.HasSuffix(n, ").Load")) {
+					args := core.CallArgs(t)
+					if len(args) > 0 {
+						if g := throughGlobal(w, args[0], 0); g != nil {
+							out = append(out, globalWrite{fn, in, g, n + " on"})
+						}
+					}
+				}
 			}
 		}
 	}
@@ -196,6 +208,87 @@ func runC19(w *core.World, r *core.Report) {
 
 	// ---- R2 -----------------------------------------------------------------------------------
 	checkBorrowed(w, r)
+
+	// ---- R3 -----------------------------------------------------------------------------------
+	r.Rule("R3", "Resource implementations of the library (shared between sessions) are not mutated by their lookup methods")
+	checkResourceStateless(w, r, "R3")
+}
+
+// checkResourceStateless: the lookup methods of the library's Resource implementations (and what
+// they call inside package resource) contain no store to, or map update through, a field of a
+// resource object. A Resource is shared by all sessions of an application, in all languages: state
+// kept there leaks between sessions (C19) and memoises language-scoped lookups (C18).
+func checkResourceStateless(w *core.World, r *core.Report, rule string) {
+	roots := map[*ssa.Function]bool{}
+	for _, fn := range w.FuncsIn("resource") {
+		switch fn.Name() {
+		case "GetCode", "GetTemplate", "GetMenu", "FuncFor", "DbGetCode", "DbGetTemplate", "DbGetMenu", "DbFuncFor", "FallbackFunc", "get":
+			if fn.Signature.Recv() != nil {
+				roots[fn] = true
+			}
+		}
+	}
+	for changed := true; changed; {
+		changed = false
+		for f := range roots {
+			for _, c := range core.Calls(f) {
+				if g := core.StaticCallee(c); g != nil && core.PkgOf(g) == "resource" && !roots[g] && len(g.Blocks) > 0 {
+					roots[g] = true
+					changed = true
+				}
+			}
+			for _, a := range f.AnonFuncs {
+				if !roots[a] {
+					roots[a] = true
+					changed = true
+				}
+			}
+		}
+	}
+	n := 0
+	isResType := func(tn string) bool { return strings.HasPrefix(tn, "resource.") }
+	var fns []*ssa.Function
+	for f := range roots {
+		fns = append(fns, f)
+	}
+	sort.Slice(fns, func(i, j int) bool { return fns[i].Pos() < fns[j].Pos() })
+	for _, f := range fns {
+		n++
+		for _, b := range f.Blocks {
+			for _, in := range b.Instrs {
+				what := ""
+				switch t := in.(type) {
+				case *ssa.Store:
+					if tn, fld, ok := core.FieldOfAddr(t.Addr); ok && isResType(tn) {
+						// a value being built locally (composite literal) is not shared state
+						if _, isLocal := t.Addr.(*ssa.FieldAddr).X.(*ssa.Alloc); !isLocal {
+							what = "store to " + tn + "." + fld
+						}
+					}
+				case *ssa.MapUpdate:
+					for _, s := range core.Sources(t.Map) {
+						if tn, fld, ok := core.LoadedField(s); ok && isResType(tn) {
+							what = "map update through " + tn + "." + fld
+						}
+					}
+				case *ssa.Call:
+					if core.IsCallTo(t, "builtin.delete") {
+						for _, s := range core.Sources(t.Call.Args[0]) {
+							if tn, fld, ok := core.LoadedField(s); ok && isResType(tn) {
+								what = "map delete through " + tn + "." + fld
+							}
+						}
+					}
+				}
+				if what != "" {
+					r.Bad(rule, fmt.Sprintf("%s: %s in a lookup method", core.QName(f), what), in.Pos(),
+						"a Resource is shared by every session (and every language) of the application; state written by a lookup leaks between sessions, is a data race, and fixes the result of language-scoped lookups to whichever language asked first")
+				}
+			}
+		}
+	}
+	r.OK(rule, "lookup methods of the library's Resource implementations scanned", token.NoPos, fmt.Sprintf("%d functions", n))
+	r.Floor(rule, "resource lookup functions", n, 8)
 }
 
 // writesReceiver: method g stores to fields / map elements of its receiver (transitively, depth 2).
@@ -248,7 +341,10 @@ func writesReceiver(g *ssa.Function, depth int, seen map[*ssa.Function]bool) boo
 
 // checkBorrowed implements R2: a library-wide, field-based taint propagation from the borrowed
 // sources to in-place write sinks.
-func checkBorrowed(w *core.World, r *core.Report) {
+func checkBorrowed(w *core.World, r *core.Report) { checkBorrowedRule(w, r, "R2") }
+
+// checkBorrowedRule is checkBorrowed under another rule id (C03 R9 cites it).
+func checkBorrowedRule(w *core.World, r *core.Report, rule string) {
 	tainted := map[ssa.Value]string{} // value -> origin description
 	fields := map[string]string{}     // "Type.field" -> origin
 	isByteSlice := func(t types.Type) bool {
@@ -363,6 +459,15 @@ func checkBorrowed(w *core.World, r *core.Report) {
 						}
 					case *ssa.UnOp:
 						if t.Op == token.MUL {
+							// a package-level byte slice of the library is shared by all sessions
+							if g := libGlobal(w, t); g != nil {
+								if round == 0 {
+									nsrc++
+								}
+								if mark(t, fmt.Sprintf("package-level variable %s.%s", core.Rel(g.Pkg.Pkg.Path()), g.Name())) {
+									changed = true
+								}
+							}
 							if tn, f, ok := core.FieldOfAddr(t.X); ok {
 								if why, ok := fields[tn+"."+f]; ok {
 									if mark(t, why+" (via field "+tn+"."+f+")") {
@@ -417,13 +522,13 @@ func checkBorrowed(w *core.World, r *core.Report) {
 				nsink++
 				if why, ok := tainted[dst]; ok {
 					nbad++
-					r.Bad("R2", fmt.Sprintf("%s: %s a borrowed slice", core.QName(fn), what), in.Pos(),
+					r.Bad(rule, fmt.Sprintf("%s: %s a borrowed slice", core.QName(fn), what), in.Pos(),
 						"a byte slice handed out by the resource / store (shared, supposedly immutable application data) is written in place: the library modifies the application's data and two sessions doing so race. Borrowed from "+why)
 				}
 			}
 		}
 	}
-	r.OK("R2", "in-place write sinks on byte slices scanned", token.NoPos, fmt.Sprintf("%d sinks, %d borrowed-slice sources, %d tainted values, %d writes into borrowed memory", nsink, nsrc, len(tainted), nbad))
-	r.Floor("R2", "borrowed-slice sources (GetCode / Db.Get call sites)", nsrc, 4)
-	r.Floor("R2", "in-place write sinks", nsink, 10)
+	r.OK(rule, "in-place write sinks on byte slices scanned", token.NoPos, fmt.Sprintf("%d sinks, %d borrowed-slice sources, %d tainted values, %d writes into borrowed memory", nsink, nsrc, len(tainted), nbad))
+	r.Floor(rule, "borrowed-slice sources (GetCode / Db.Get call sites)", nsrc, 4)
+	r.Floor(rule, "in-place write sinks", nsink, 10)
 }
